@@ -325,7 +325,7 @@ def poi_to_ind(X, a, b, n, kind='uni'):
     Xsc = poi_scale(X, a, b, kind)
     d = Xsc.shape[-1]
     m = Xsc.shape[0] if len(Xsc.shape) > 1 else None
-    n = grid_prep_opt(n, d, kind=int, reps=m)
+    n = grid_prep_opts(None, None, n, d, m)[2]
 
     if kind == 'uni':
         I = Xsc * (n - 1)
